@@ -27,6 +27,7 @@ EXPLANATION = (
     "tree it describes). Not decided: that paths of nodes of one tree share exactly a prefix (C01/C04), so that the "
     "positional matches are that prefix; the concrete tuples for a given tree. An implementation that derives the triple in "
     "another way (walking parents, sets of ancestors) is answered with 'cannot follow' (ANALYSIS-ERROR), not with a verdict."
+    " Added in round 16: K5 neighbour short cuts (`end.parent is start`) are instances of the general walk; a walk that climbs the parent links itself gets no verdict."
 )
 ASSUMPTIONS = ["node.path is the root-down tuple ending in the node (C04's subject)", "tuple/reversed/zip/len are the builtins"]
 WALKER = "anytree/walker.py"
@@ -649,6 +650,12 @@ def run(ctx):
             isinstance(n_, ast.Call) and norm(n_.func).endswith("iter_path_reverse") for n_ in ast.walk(w.node)):
         raise AnalysisError("C15: Walker.walk does not compute the walk from the two root-down paths (no .path/.ancestors read): this "
                             "implementation is not followed")
+    climbs = [lp for lp in ast.walk(w.node) if isinstance(lp, ast.While) and any(
+        isinstance(a_, ast.Assign) and len(a_.targets) == 1 and isinstance(a_.targets[0], ast.Name) and isinstance(a_.value, ast.Attribute)
+        and a_.value.attr == "parent" and norm(a_.value.value) == a_.targets[0].id for a_ in ast.walk(lp))]
+    if climbs:
+        raise AnalysisError("C15: Walker.walk climbs the parent links itself (`while` loop stepping to `.parent`) instead of computing the walk "
+                            "from the two root-down paths: this implementation is not followed")
     ev = Evaluator(ctx, typer, w, start, end)
     rets = cfg.stmt_nodes(("return",))
     if not rets:
